@@ -252,6 +252,7 @@ func run(c *vf.Ctx) {
 				} else {
 					fail++
 					labels[lab+"/fail"]++
+					c.Count("txs_failed_total", 1)
 				}
 			}
 		}
@@ -331,7 +332,7 @@ func run(c *vf.Ctx) {
 	c.Assume("the reference run is the same code: only divergence between runs is detected, not a deterministic wrong result")
 	c.Assume("most restart variants are in-process (process-global caches survive); one variant per history plays the blocks in separate child processes on an on-disk backend; cgo backends not included")
 	c.Require("succeeded txs", c.Counter("tx:store/ok"), 5)
-	c.Require("failed txs", c.Counter("tx:fail/fail")+c.Counter("tx:oog/fail"), 2)
+	c.Require("failed txs", c.Counter("txs_failed_total"), 2)
 	c.Require("restarts", c.Counter("restarts"), 5)
 	c.RequireCounter("process_level_restarts", 1)
 }
@@ -339,5 +340,5 @@ func run(c *vf.Ctx) {
 // genHist: every third history uses the fan-out profile, every third the failing-tx profile; the fan-out one has (clone realms changed by equal
 // amounts inside one message: ties in every per-realm ordering).
 func genHist(rng *rand.Rand, seed uint64, nBlocks, hi int) *hist.History {
-	return hist.GenP(rng, seed, nBlocks, 6, hist.Profile{FanBoost: hi%3 == 1, FailBoost: hi%3 == 2})
+	return hist.GenP(rng, seed, nBlocks, 6, hist.Profile{FanBoost: hi%3 == 1, FailBoost: hi%3 == 2, OddBoost: hi%3 == 0})
 }
